@@ -46,6 +46,9 @@ def block_options(i, variant, incdir):
         # non-matching block must not switch off the beginning of the next one
         return ['Include %s/g*.conf' % incdir, 'Port 240%d' % v, 'Include %s/m1.conf %s/m2.conf' % (incdir, incdir),
                 'SendEnv B%d' % v]
+    if variant == 'env':
+        # ${VAR} stands for the variable's text as it is: what looks like a token inside it is not one
+        return ['IdentityAgent ${C18_KD%d}/agent' % v, 'User e%d' % v, 'Port 260%d' % v, 'SendEnv E%d' % v]
     if variant == 'include-tokens':
         # tokens written in an included file (or before later lines) stand for the FINAL host, user and port
         return ['User t%d' % v, 'Port 250%d' % v, 'Hostname %%h.t%d.example' % v, 'Include %s/tok%d.conf' % (incdir, v), 'IdentityFile /k/after%d_%%r_%%%%r' % v]
@@ -164,6 +167,10 @@ def compare(cfgpath, host, user, port, paths=None):
         a_idx = [HOME + x[1:] if x.startswith('~/') else x for x in a_id]
         if a_idx != r_id:
             diffs.append(('IdentityFile', a_idx, r_id))
+    a_agent = cfg.get('IdentityAgent')
+    r_agent = ref.get('identityagent', [None])[0]
+    if r_agent is not None and r_agent not in ('SSH_AUTH_SOCK', 'none') and '${' not in r_agent and a_agent != r_agent:
+        diffs.append(('IdentityAgent', a_agent, r_agent))
     a_send = cfg.get('SendEnv') or []
     if list(a_send) != ref.get('sendenv', []):
         diffs.append(('SendEnv', list(a_send), ref.get('sendenv', [])))
@@ -181,6 +188,8 @@ def client_worker(job):
     write_includes(incdir)
     os.makedirs(HOME, exist_ok=True)
     os.environ['HOME'] = HOME           # asyncssh expands %d and ~ from the environment, like ssh does
+    for i_, val_ in enumerate(('/k/a%hb', '/k/My%20Keys', '/k/%u%%r'), 1):
+        os.environ['C18_KD%d' % i_] = val_
     for headers, variant in progs:
         cfgpath = os.path.join(wd, 'cfg')
         paths = None
@@ -424,7 +433,7 @@ def main(tier, seed):
         hs += list(itertools.product(HEADERS, repeat=n))
     if tier == 'thorough':
         hs = [h for h in hs if len(h) < 3 or len(set(h)) == 3]
-    progs = [(h, v) for h in hs for v in ('plain', 'tokens', 'include', 'include-multi', 'list', 'none-first', 'none-later', 'include-tokens')]
+    progs = [(h, v) for h in hs for v in ('plain', 'tokens', 'include', 'include-multi', 'list', 'none-first', 'none-later', 'include-tokens', 'env')]
     acc = core.pmap(client_worker, core.rotate([progs[i::64] for i in range(64)], seed))
     n_client = acc.evaluations
     acc.merge(core.pmap(server_worker, [0]))
@@ -432,7 +441,7 @@ def main(tier, seed):
     shutil.rmtree(SCRATCH, ignore_errors=True)
     rule = ('client: every sequence of 1..%d conditional blocks over %d headers (Host patterns with wildcards and '
             'negation in either position, Match host/originalhost/user/localuser/all with negation and lists), every '
-            'block assigning each option under test a distinct value, x 8 variants (percent tokens in included files and before the lines that set what they stand for; an explicit none obtained first or later; plain; "=" and quoted spellings, '
+            'block assigning each option under test a distinct value, x 9 variants (environment references whose text contains percent signs; percent tokens in included files and before the lines that set what they stand for; an explicit none obtained first or later; plain; "=" and quoted spellings, '
             'Hostname with %%h, IdentityFile with %%h %%r %%p %%n %%%% %%d %%u, multiple SendEnv words, SetEnv; Include '
             'of existing, nested-Host and non-matching glob files; one Include naming several files or a glob matching '
             'several, some ending inside a non-matching block; the blocks as separate files given as a list) x 12 targets (3 hosts x user x port) vs ssh -G; '
